@@ -40,8 +40,25 @@ def cases(rng, tier):
                 continue
             n = rng.choice([2, 3, 4])
             ax, conds = table(rng, n, m, den)
+            bden = den
+            if r > 0.88:
+                # a column of tiny (equal) belief masses: the marginal base rate of that y is tiny but positive
+                t = rng.choice(G.TINY[fmt])
+                y0 = rng.randrange(m)
+                conds = []
+                for x in range(n):
+                    bb, uu = G.rand_simplex(rng, m, den, "int")
+                    bb = [float(v) for v in bb]; uu = float(uu)
+                    uu = G.round_fmt(fmt, uu + bb[y0] - t); bb[y0] = t
+                    conds += bb + [uu]
+                ax = G.rand_dist(rng, n, den, positive=True)
+            elif r > 0.8:
+                # non-dyadic rationals (thirds, fifths, tenths): results on the simplex boundary up to rounding
+                bden = rng.choice([3, 5, 10, 6])
+                ax = [float(v) for v in G.rand_dist(rng, n, bden, positive=True)]
+                conds = [float(v) for v in G.rand_cond(rng, n, m, bden, [rng.choice(["dog", "int", "any"]) for _ in range(n)])]
             kind = rng.choice(["int", "int", "any", "vac", "dog", "abs"])
-            b, u = G.rand_simplex(rng, n, den, "dog" if kind == "abs" else kind)
+            b, u = G.rand_simplex(rng, n, bden, "dog" if kind == "abs" else kind)
             if kind == "abs":
                 b = [G.Fr(0)] * n; b[rng.randrange(n)] = G.Fr(1)
             fam = rng.choice(G.FAMS_1D)
